@@ -184,10 +184,11 @@ structure SFacts where
   checkBeforeStamp     : Bool   -- calculateAndCheckRuleHash: checkRuleHashes (and its early return) precede writeRuleHash
   storeAfterCheck      : Bool   -- buildTarget: storeInCache only after calculateAndCheckRuleHash returned without error
   keepOld              : Bool   -- moveOutput keeps the file already in plz-out when the hashes are equal
-  fgCheckOnlyIfChanged : Bool   -- filegroup branch: calculateAndCheckRuleHash sits inside `if changed`
+  fgCheckOnlyIfChanged : Bool   -- filegroup branch: true = calculateAndCheckRuleHash sits inside `if changed` (before the fix of
+                                -- finding filegroup-unchanged-skips-hash-check); false = `if changed || len(target.Hashes) > 0`
 deriving DecidableEq, Repr
 
-def SFacts.asCoded : SFacts := ⟨true, true, true, true, true, true⟩
+def SFacts.asCoded : SFacts := ⟨true, true, true, true, true, false⟩
 
 /-- plz-out (the target's outputs with the stamp xattr they carry) and the artifact cache. -/
 structure TState (K C : Type) where
@@ -242,10 +243,13 @@ def buildTarget (fx : SFacts) (check : K → Option C → C → Bool) (cacheOn :
     | none => finishBuild fx check cacheOn key st.cache st.out none fresh
   else (st, .reused)
 
-/-- Filegroup: outputs are links to the sources and carry no stamp; the check runs only when a link changed. -/
+/-- Filegroup: outputs are links to the sources and carry no stamp.  `out` is what plz-out holds, `src` the source now.
+    The links are re-made when they differ from the sources; the check runs when a link changed or (since the fix) the
+    target declares hashes — `check` of a target without declared hashes passes, so running it always is the same. -/
 def buildFilegroup (fx : SFacts) (check : K → Option C → C → Bool) (key : K) (src : C) (out : Option C) : Option C × Res :=
-  if fx.fgCheckOnlyIfChanged && decide (out = some src) then (out, .reused)
-  else if check key none src then (some src, .built)
+  let unchanged := decide (out = some src)
+  if fx.fgCheckOnlyIfChanged && unchanged then (out, .reused)
+  else if check key none src then (some src, if unchanged then .reused else .built)
   else (if fx.removeOnBuildFail then none else some src, .failed)
 
 /-- What can happen between two builds. -/
